@@ -20,6 +20,7 @@
 import MajoranaVerif.Proofs.Mvp4Run
 import MajoranaVerif.Proofs.Mvp5Run
 import MajoranaVerif.Proofs.Mvp60SlRun
+import MajoranaVerif.Proofs.Mvp60Flush
 open GoInt Model Model.Mvp4 Model.Seq Proofs.Mvp4
 
 namespace Props.C03
@@ -245,5 +246,52 @@ unpipelined machine -/
 example (app : App) (eu : Nat) : ∃ s0, Model.Mvp60.init { Memory := List.replicate 64 0#8 } eu eu = .ok s0 ∧
     Proofs.Mvp60Sl.Rel app s0 ⟨{ Memory := List.replicate 64 0#8 }, 0#32⟩ :=
   Proofs.Mvp60Sl.init_rel app _ ⟨rfl, rfl, fun r => rfl⟩ eu eu rfl
+
+end Props.C03
+
+/-! ## MVP-6.0 (package R60b): the drain before a pipeline flush
+
+When an execute unit signals a flush, `Run` drains the write bus through the write units, called with `before = from`
+(the pc = sequence id of the flushing branch): a result with a greater sequence id is DROPPED, every other one is written
+back; then `m.flush(pc)` empties the pipeline.  `Proofs.Mvp60Flush.DrainInv from target s`: the write units are idle, no
+store is on the write bus, and applying the results the filter will KEEP (`Proofs.Mvp60Flush.kept from`) to the register
+file, in order, gives `target`.  `DrainPost`: still draining (`mode = flushW i from pc`) with the invariant, or `Flushed`:
+back in normal mode with register file `target`, empty write and execute buses, fetch restarted at `pc`. -/
+namespace Props.C03
+
+/-- **a wrong-path instruction's result never reaches the register file; every older result does (MVP-6.0).**
+(1) Entering the drain at the end of the tick of the flush and (2) every tick of the drain lead to `DrainPost` — the run
+goes on, and when the drain is over the register file is exactly the old one with the KEPT results applied: the results
+with a sequence id greater than the flushing branch's (those an execute unit produced in the same tick behind the branch)
+are not in it. -/
+theorem mvp60_flush_drain_drops_younger_keeps_older (app : App) (from_ pc : Word) (target : GoMap Reg Word) :
+    (∀ s : Model.Mvp60.State, Proofs.Mvp60Flush.DrainInv from_ target s → 1 ≤ s.wus.length →
+      (Model.Mvp60.goFlush { s with writeBus := s.writeBus.connect (s.cycles + 1) } from_ pc s.wus.length 0).2 = .running ∧
+      Proofs.Mvp60Flush.DrainPost from_ pc target
+        (Model.Mvp60.goFlush { s with writeBus := s.writeBus.connect (s.cycles + 1) } from_ pc s.wus.length 0).1) ∧
+    (∀ (s s' : Model.Mvp60.State) (i : Nat) (ev : Model.Mvp60.Event), s.mode = .flushW i from_ pc → i < s.wus.length →
+      Proofs.Mvp60Flush.DrainInv from_ target s → Model.Mvp60.cycleM app s = .ok (s', ev) →
+      ev = .running ∧ Proofs.Mvp60Flush.DrainPost from_ pc target s') :=
+  ⟨fun s h hk => Proofs.Mvp60Flush.enter_drain from_ pc target s h hk,
+   fun s s' i ev hm hi h hr => Proofs.Mvp60Flush.drain_tick app from_ pc target s s' i ev hm hi h hr⟩
+
+/-- Non-vacuity, with a same-tick wrong-path result on the write bus: `addi t1, zero, 7; beq zero, zero, l1; addi t0, zero, 5;
+l1: addi t2, zero, 9` on the two-unit model.  After 314 ticks the machine is in the drain (`flushW 0`, `from = 4`,
+`pc = 12`); the write bus holds the branch's (empty) result and the wrong-path `t0 := 5` with sequence id 8, which the filter
+does not keep; the invariant holds with a target in which `t0 = 0`; and the run ends with `t0 = 0` (`t1 = 7`, `t2 = 9`). -/
+example : ∃ target, (Model.Mvp60.run Proofs.Mvp60Flush.wpApp Proofs.Mvp60Flush.wpCtx 2 2 314).final.mode = .flushW 0 4#32 12#32 ∧
+    Proofs.Mvp60Flush.DrainInv 4#32 target (Model.Mvp60.run Proofs.Mvp60Flush.wpApp Proofs.Mvp60Flush.wpCtx 2 2 314).final ∧
+    GoMap.get1 target 5 = 0#32 ∧
+    (Model.Mvp60.run Proofs.Mvp60Flush.wpApp Proofs.Mvp60Flush.wpCtx 2 2 314).final.writeBus.inside.map
+        (fun ec => (ec.seq, ec.execution.RegisterChange, ec.execution.Register == 5, ec.execution.RegisterValue)) =
+      [(4#32, false, false, 0#32), (8#32, true, true, 5#32)] ∧
+    GoMap.get1 (Model.Mvp60.run Proofs.Mvp60Flush.wpApp Proofs.Mvp60Flush.wpCtx 2 2 2000).final.ctx.Registers 5 = 0#32 := by
+  have ha := Proofs.Mvp60Flush.wp_314a
+  have hb := Proofs.Mvp60Flush.wp_314b
+  have he := Proofs.Mvp60Flush.wp_end
+  simp only [Proofs.Mvp60Flush.wpObsA, Prod.mk.injEq, List.all_eq_true, beq_iff_eq] at ha
+  simp only [Proofs.Mvp60Flush.wpObsB, Prod.mk.injEq] at hb
+  simp only [Prod.mk.injEq] at he
+  exact ⟨_, ha.1, ⟨ha.2.1, ha.2.2, rfl⟩, hb.2.1, hb.1, he.2.1⟩
 
 end Props.C03
